@@ -157,6 +157,8 @@ class C18(core.Check):
                     d[kk] = self.build(v, real)
                 return d
             raise core.HarnessError(f"bad spec {spec!r}")
+        if isinstance(spec, str) and real and len(spec) > 1:
+            return spec[:1] + spec[1:]  # a string built at run time (as from JSON or a file), never an interned literal
         return spec
 
     def norm(self, x):
@@ -277,7 +279,25 @@ class C18(core.Check):
         model = self.build(doc, real=False)
         ops = []
         p_update = k.choice([0.2, 0.5, 0.8])
+        if k.random() < 0.15:
+            # motif: a patch that cannot be applied yet (it deletes an object d1 does not have) is tried and fails;
+            # d1 then gains that object; the very same patch object is applied again and must now work
+            missing = [kk for kk in DICT_KEYS if fold(model, kk) not in model]
+            if missing:
+                kk = r.choice(missing)
+                bad = self.gen_patch(r, model, cls)
+                bad = ["d", "plain", bad[2] + [[kk, ["d", "plain", [[DEL, True]]]]]]
+                ops.append(["update", bad, True])
+                add = ["d", "plain", [[kk, self.gen_doc(r, "plain", 3)]]]
+                ops.append(["update", add, True])
+                ref_update(model, self.build(add, real=False), True)
+                ops.append(["update_again", 0])
+                if self.compatible(model, self.build(bad, real=False)):
+                    ref_update(model, self.build(bad, real=False), True)
         for _ in range(k.choice([1, 1, 2, 3, 4, 8])):
+            if ops and r.random() < 0.12:
+                ops.append(["update_again", r.randrange(8)])  # the very same patch object once more
+                continue
             if r.random() < p_update:
                 patch = self.gen_patch(r, model, cls)
                 if r.random() < 0.03:
@@ -397,16 +417,35 @@ class C18(core.Check):
         if self.norm(real) != self.norm(model):
             raise core.HarnessError("initial real/model mismatch")
         live_patches = []  # every patch object of the history stays alive and must stay as it was
+        pool, pool_objs = [], []  # patch objects of this history, for "the same patch object again"
 
         for op in case["ops"]:
             steps += 1
             name = op[0]
+            if name == "update_again":
+                if not pool:
+                    continue
+                j = op[1] % len(pool)
+                op = ["update", pool[j][1], pool[j][2], pool_objs[j]]
+                name = "update"
             if name == "update":
                 patch_m = self.build(op[1], real=False)
-                patch_r = self.build(op[1], real=True)
+                patch_r = op[3] if len(op) > 3 else self.build(op[1], real=True)
                 if not self.compatible(model, patch_m):
                     bump("skipped.incompatible_patch")
+                    if True:
+                        # the statement is silent on what such a patch does - but whatever it does (usually it
+                        # raises half-way) must not affect later updates: try it on a throw-away copy, keep the
+                        # patch object alive, and offer it again later
+                        import copy as _copy
+
+                        core.call(lambda: mf.update(_copy.deepcopy(real), patch_r, overwrite=op[2]))
+                        bump("fault.update_with_patch_outside_the_statement")
+                        pool.append(op)
+                        pool_objs.append(patch_r)
                     continue
+                pool.append(op)
+                pool_objs.append(patch_r)
                 patch_before = self.norm(patch_r)
                 before = self.norm(model)
                 # identity of every value reachable in d1 before the call
